@@ -11,21 +11,21 @@ import (
 // BalFlags are the balance flags in structured form (the reference models
 // read them from here; Args() renders them for knut).
 type BalFlags struct {
-	From, To     *Day
-	Interval     int
-	Last         int
-	Diff         bool
-	Close        *bool // nil: default (true)
-	SortAlpha    bool
-	Val          string
-	ShowCom      string
-	Accounts     []string
-	Commodities  []string
-	Mappings     []Mapping
-	Remap        []string
-	Digits       int
-	Thousands    bool
-	CSV          bool
+	From, To    *Day
+	Interval    int
+	Last        int
+	Diff        bool
+	Close       *bool // nil: default (true)
+	SortAlpha   bool
+	Val         string
+	ShowCom     string
+	Accounts    []string
+	Commodities []string
+	Mappings    []Mapping
+	Remap       []string
+	Digits      int
+	Thousands   bool
+	CSV         bool
 }
 
 type Mapping struct {
@@ -97,11 +97,11 @@ func (f *BalFlags) Args() []string {
 func (f *BalFlags) closing() bool { return f.Close == nil || *f.Close }
 
 type FlagOpts struct {
-	NoFilters  bool // C01: nothing hidden
-	NoMapping  bool
-	Valued     bool
-	AlwaysTo   bool
-	NoRemap    bool
+	NoFilters       bool // C01: nothing hidden
+	NoMapping       bool
+	Valued          bool
+	AlwaysTo        bool
+	NoRemap         bool
 	WindowFromStart bool
 }
 
